@@ -74,12 +74,22 @@ import (
 // so earlier histories cannot contribute operations to its register; anything of
 // theirs still in flight touches other keys only. A cluster that does not settle
 // or quiesce within 30 s is discarded and the history is re-run once on a fresh
-// one.
+// one. An attempt that exceeds c02HistoryLimit (a node that cannot be closed or
+// reopened, whatever hangs inside the dependency) is abandoned with its cluster and
+// repeated once; a history abandoned twice is reported as a cap (exhaustive:false),
+// never as a violation, and the test function never waits for it.
 
 const (
-	c02ClientWait = 250 * time.Millisecond
-	c02Workers    = 20
+	// c02HistoryLimit bounds one attempt at one history, cluster (re)start and final phase
+	// included (a normal one takes 0.1-5 s). Past it the attempt is abandoned, never judged.
+	c02HistoryLimitDefault = 180 * time.Second
+	c02ClientWait          = 250 * time.Millisecond
+	c02Workers             = 20
 )
+
+// c02HistoryLimit is a variable only so that the watchdog itself can be exercised
+// (VERIF_C02_LIMIT_S together with VERIF_C02_TEST_HANG, development aids).
+var c02HistoryLimit = c02HistoryLimitDefault
 
 var c02Quick = []string{"W", "L", "S", "Wo", "Lo", "So", "W|L", "Pl", "Pd", "Pf", "H", "X", "Cl", "Cf"}
 var c02Full = []string{"W", "L", "S", "Wo", "Lo", "So", "Wf", "Lf", "Sf", "W|L", "W|W", "W|S", "W|Lo", "Pl", "Pd", "Pf", "Pl|W", "H", "X", "Cl", "Cf"}
@@ -420,6 +430,9 @@ var c02Serial atomic.Int64
 // and the caller must discard the cluster); the linearizability verdict on what
 // was observed is still valid and is still reported.
 func c02RunHistory(c *vcCluster, syms []string, api vcAPI) *c02Verdict {
+	if hang := os.Getenv("VERIF_C02_TEST_HANG"); hang != "" && hang == strings.Join(syms, " ") {
+		select {} // development aid: exercise the per-history watchdog
+	}
 	h := &c02Hist{c: c, syms: syms, api: api, t0: time.Now(), old: -1}
 	h.key = "h" + strconv.FormatInt(c02Serial.Add(1), 10)
 	l := c.Leader()
@@ -801,7 +814,18 @@ func TestVerif_C02(t *testing.T) {
 	var next, done atomic.Int64
 	var wg sync.WaitGroup
 	var mu sync.Mutex
-	var nUnsettled, nRebuilt, nPending, nOps, nWedged int64
+	var nUnsettled, nRebuilt, nPending, nOps, nWedged, nHung, nAbandoned, nNoCluster int64
+	// all clusters of this run live under one directory, removed when the test ends - also
+	// those of clusters that had to be abandoned
+	shm := os.TempDir()
+	if st, err := os.Stat("/dev/shm"); err == nil && st.IsDir() {
+		shm = "/dev/shm"
+	}
+	base, err := os.MkdirTemp(shm, "vc-cluster-c02-")
+	if err != nil {
+		t.Fatalf("harness: %v", err)
+	}
+	defer os.RemoveAll(base)
 	var phases [5]time.Duration
 	type slow struct {
 		d time.Duration
@@ -818,13 +842,16 @@ func TestVerif_C02(t *testing.T) {
 	if w, err := strconv.Atoi(os.Getenv("VERIF_C02_WORKERS")); err == nil && w > 0 {
 		workers = w
 	}
+	if n, err := strconv.Atoi(os.Getenv("VERIF_C02_LIMIT_S")); err == nil && n > 0 {
+		c02HistoryLimit = time.Duration(n) * time.Second
+	}
 	capped := atomic.Bool{}
+	var dumpOnce atomic.Bool
 	// progress line every 30 s, and one goroutine dump if a worker sits on one history for 3 minutes
 	current := make([]atomic.Value, workers)
 	stopWatch := make(chan struct{})
 	defer close(stopWatch)
 	go func() {
-		dumped := false
 		for {
 			select {
 			case <-stopWatch:
@@ -836,12 +863,6 @@ func TestVerif_C02(t *testing.T) {
 				if v := current[w].Load(); v != nil {
 					st := v.(c02Status)
 					cur = append(cur, fmt.Sprintf("w%d:%s(%ds)", w, st.what, int(time.Since(st.since).Seconds())))
-					if !dumped && time.Since(st.since) > 3*time.Minute {
-						dumped = true
-						buf := make([]byte, 4<<20)
-						buf = buf[:runtime.Stack(buf, true)]
-						fmt.Printf("harness watchdog: worker %d stuck on %s; goroutines:\n%s\n", w, st.what, buf)
-					}
 				}
 			}
 			fmt.Printf("harness progress: %d/%d histories done after %v; %s\n", done.Load(), len(jobs), time.Since(start).Round(time.Second), strings.Join(cur, " "))
@@ -857,20 +878,55 @@ func TestVerif_C02(t *testing.T) {
 					c.Close()
 				}
 			}()
-			fresh := func() bool {
-				if c != nil {
-					c.Close()
-					c = nil
+			// runWatched runs one history (starting a cluster first if the worker has none) under
+			// the per-history limit. hung=true: the limit passed; the cluster is marked wedged and
+			// leaked together with the goroutine that is stuck in it (its files go with the run's
+			// base directory), and whatever that goroutine may still produce is discarded.
+			runWatched := func(j job) (v *c02Verdict, hung bool, err error) {
+				type result struct {
+					v   *c02Verdict
+					c   *vcCluster
+					err error
 				}
-				for try := 0; try < 3; try++ {
-					nc, err := vcNewCluster(vcOpts{N: 3})
-					if err == nil {
-						c = nc
-						return true
+				ch := make(chan result, 1)
+				var abandoned atomic.Bool
+				cur := c
+				go func() {
+					cc := cur
+					var err error
+					for try := 0; cc == nil && try < 3 && !abandoned.Load(); try++ {
+						if cc, err = vcNewCluster(vcOpts{N: 3, Base: base}); err != nil {
+							cc = nil
+							t.Logf("harness: cluster start failed (try %d): %v", try, err)
+						}
 					}
-					t.Logf("harness: cluster start failed (try %d): %v", try, err)
+					var v *c02Verdict
+					if cc != nil && !abandoned.Load() {
+						v = c02RunHistory(cc, j.syms, j.api)
+					}
+					if abandoned.Load() {
+						if cc != nil {
+							cc.Close() // nobody is waiting any more: tidy up if that is still possible
+						}
+						return
+					}
+					ch <- result{v, cc, err}
+				}()
+				select {
+				case o := <-ch:
+					c = o.c
+					if o.v == nil {
+						return nil, false, fmt.Errorf("cannot start a cluster: %v", o.err)
+					}
+					return o.v, false, nil
+				case <-time.After(c02HistoryLimit):
+					abandoned.Store(true)
+					if cur != nil {
+						cur.wedged.Store(true)
+					}
+					c = nil
+					return nil, true, nil
 				}
-				return false
 			}
 			for {
 				k := int(next.Add(1)) - 1
@@ -885,11 +941,32 @@ func TestVerif_C02(t *testing.T) {
 				var v *c02Verdict
 				for attempt := 0; attempt < 2; attempt++ {
 					current[w].Store(c02Status{fmt.Sprintf("%v/%s#%d", j.syms, j.api, attempt), time.Now()})
-					if c == nil && !fresh() {
-						t.Errorf("harness: cannot start a cluster")
+					var hung bool
+					var err error
+					v, hung, err = runWatched(j)
+					if err != nil {
+						mu.Lock()
+						nNoCluster++
+						mu.Unlock()
+						t.Logf("harness: worker %d stops: %v", w, err)
 						return
 					}
-					v = c02RunHistory(c, j.syms, j.api)
+					if hung {
+						mu.Lock()
+						nHung++
+						mu.Unlock()
+						t.Logf("harness: history %v (%s) attempt %d exceeded %v; its cluster is abandoned", j.syms, j.api, attempt, c02HistoryLimit)
+						if dumpOnce.CompareAndSwap(false, true) {
+							buf := make([]byte, 4<<20)
+							buf = buf[:runtime.Stack(buf, true)]
+							fmt.Printf("harness watchdog: goroutines at the first abandoned attempt (%v/%s):\n%s\n", j.syms, j.api, buf)
+						}
+						v = nil
+						if r.OverBudget() {
+							break
+						}
+						continue
+					}
 					if v.settled {
 						break
 					}
@@ -904,6 +981,16 @@ func TestVerif_C02(t *testing.T) {
 					if v.vioKey != "" {
 						break
 					}
+				}
+				if v == nil {
+					// exceeded the limit on every attempt: no verdict, reported as a cap, never as a violation
+					done.Add(1)
+					mu.Lock()
+					r.Eval(1)
+					nAbandoned++
+					r.Distinct(strings.Join(j.syms, " ") + "/" + j.api.String() + " :: abandoned")
+					mu.Unlock()
+					continue
 				}
 				done.Add(1)
 				mu.Lock()
@@ -948,14 +1035,23 @@ func TestVerif_C02(t *testing.T) {
 	for i := 0; i < len(slowest) && i < 12; i++ {
 		t.Logf("slow: %v %s", slowest[i].d, slowest[i].s)
 	}
+	if done.Load() == 0 && len(jobs) > 0 {
+		t.Fatalf("harness: no history could be run (clusters do not start)")
+	}
 	if capped.Load() {
-		r.Cap("time budget used up after %d of %d histories", next.Load()-int64(workers), len(jobs))
+		r.Cap("time budget used up after %d of %d histories", done.Load(), len(jobs))
+	}
+	if nAbandoned > 0 {
+		r.Cap("%d histories exceeded the per-history limit of %v on both attempts and were abandoned without a verdict", nAbandoned, c02HistoryLimit)
+	}
+	if nNoCluster > 0 && !capped.Load() && done.Load() < int64(len(jobs)) {
+		r.Cap("%d workers stopped because no cluster could be started; %d of %d histories run", nNoCluster, done.Load(), len(jobs))
 	}
 	if nUnsettled > 0 {
 		r.Cap("%d histories left the cluster unable to settle/quiesce within 30 s twice: no replica-agreement verdict for them", nUnsettled)
 	}
 	r.Set("histories", len(jobs))
 	r.Set("scripted_client_operations", nOps)
-	t.Logf("operations without an answer by the end of their history: %d; clusters discarded: %d (close hung: %d)", nPending, nRebuilt, nWedged)
+	t.Logf("operations without an answer by the end of their history: %d; clusters discarded: %d (close hung: %d); attempts over the %v limit: %d (histories abandoned: %d)", nPending, nRebuilt, nWedged, c02HistoryLimit, nHung, nAbandoned)
 	r.Note("A run in which Store.Close(true) of a node being crashed does not return within 15 s (hashicorp/raft v1.7.3 pipelined-replication goroutine deadlock, see vcCluster.Crash; a liveness defect of the dependency, not a C02 matter) is abandoned and repeated on a fresh cluster; the log of the part says how many.")
 }
